@@ -33,25 +33,25 @@ func init() {
 			c.Rep.floor("G1", 350)
 			runR_C01(c)
 		},
-		explanation: "Structural necessary conditions of C01 decided statically: (G11) the work list cannot report success before every generator is Done and name lookup answers only under the type comparison; (G1) no generator error is dropped or swallowed; (G8) every plugin is registered once, every deps[...] key is bound and every discovered call reaches Add or the deferred list; (G13) Field.Private agrees with Go's exportedness on every class of first characters and unvendor strips whole vendor path elements only; (Engine R) every accepted abstract run of every plugin emits text that parses and gofmt-s (R1), refers only to holes / universe names / identifiers it declares (R2), uses exactly the imports it requested (R3), marks what it generates (Generating must-pass-through) and, where kinds are determined, type-checks against the documented helper signatures (R4, thorough). Not decided: import-alias collisions, the multi-pass reload loop, _test files, shapes beyond the stated bounds. Added: (R4, every tier) every accepted run of every plugin — also runs whose text repeats but whose holes stand for other types — is type-checked with go/types against declarations built from the path (kinds, exact basic kinds, struct fields incl. a blank first field, defined vs literal types, identities, directional assignability, user methods found by the lookup predicates, documented helper signatures); runs the model cannot express are counted as untyped. (G12) HasUndefined examines whole types; (G14) the finder always continues into the children of a node; (G16) every load includes test files, tolerates errors, and nobody reads a package's Errors list; (R1) no blank field is selected, unsafe casts use the field's own type. Fourth session: FieldStrings interpreted; struct tags containing a percent sign in the input space; mangled twin for type text in format position; alternative basic kinds / untyped nil / slice / channel-direction declarations for whatever a path left open (each alternative a possible input: a type error is a definite compile error for it); (G14) reserved set complete before naming; (G9) canEqual/canCopy/IsComparable tabulated; (G8) every recorded call becomes a call record.",
+		explanation: "Structural necessary conditions of C01 decided statically: (G11) the work list cannot report success before every generator is Done and name lookup answers only under the type comparison; (G1) no generator error is dropped or swallowed; (G8) every plugin is registered once, every deps[...] key is bound and every discovered call reaches Add or the deferred list; (G13) Field.Private agrees with Go's exportedness on every class of first characters and unvendor strips whole vendor path elements only; (Engine R) every accepted abstract run of every plugin emits text that parses and gofmt-s (R1), refers only to holes / universe names / identifiers it declares (R2), uses exactly the imports it requested (R3), marks what it generates (Generating must-pass-through) and, where kinds are determined, type-checks against the documented helper signatures (R4, thorough). Not decided: import-alias collisions, the multi-pass reload loop, _test files, shapes beyond the stated bounds. Added: (R4, every tier) every accepted run of every plugin — also runs whose text repeats but whose holes stand for other types — is type-checked with go/types against declarations built from the path (kinds, exact basic kinds, struct fields incl. a blank first field, defined vs literal types, identities, directional assignability, user methods found by the lookup predicates, documented helper signatures); runs the model cannot express are counted as untyped. (G12) HasUndefined examines whole types; (G14) the finder always continues into the children of a node; (G16) every load includes test files, tolerates errors, and nobody reads a package's Errors list; (R1) no blank field is selected, unsafe casts use the field's own type. Fourth session: FieldStrings interpreted; struct tags containing a percent sign in the input space; mangled twin for type text in format position; alternative basic kinds / untyped nil / slice / channel-direction declarations for whatever a path left open (each alternative a possible input: a type error is a definite compile error for it); (G14) reserved set complete before naming; (G9) canEqual/canCopy/IsComparable tabulated; (G8) every recorded call becomes a call record. Since wave 6: a TypeString result (which registers an import) must reach the output (R3); the cast type that reads a private field of an imported struct is the field's own type or, exactly when that type was established unexported, its Underlying() (G33/R1); blank named results are part of the abstract input space; Generating is asked about the value that was registered; string cuts in helper names are rune-aligned (G15); canEqual asks for Equal methods before licensing == (G9).",
 		assumptions: commonAssumptions,
 		technique:   "custom static analysis: CFG dominance lints over the driver + abstract interpretation of plugins into residual programs checked with go/parser, go/format and go/types",
 	}
 	checks["C02"] = &checkDef{
 		run:         runR_C02,
-		explanation: "Engine R on the equal plugin: every accepted abstract path's residual is checked for (R6) two-sidedness — every comparison and helper/method call pairs mirror-image components of the two values, nil tests come in mirrored pairs; (R19) every field of every inlined struct takes part on both sides; (R7) every dereference, pointer field read, cross-indexing and looked-up map value is guarded (non-nil / equal length / ok) in the guard set; (R10) no write through an argument; curried and binary forms emit the same body; the user's Equal method is consulted before `==` is chosen (decision order); library comparisons that ignore nil-ness are flagged. G9 tabulates canEqual over go/types kinds. Not decided: extensional equality, reflexivity/symmetry/transitivity as semantic facts, NaN/cycles (excluded), shapes beyond the bounds.",
+		explanation: "Engine R on the equal plugin: every accepted abstract path's residual is checked for (R6) two-sidedness — every comparison and helper/method call pairs mirror-image components of the two values, nil tests come in mirrored pairs; (R19) every field of every inlined struct takes part on both sides; (R7) every dereference, pointer field read, cross-indexing and looked-up map value is guarded (non-nil / equal length / ok) in the guard set; (R10) no write through an argument; curried and binary forms emit the same body; the user's Equal method is consulted before `==` is chosen (decision order); library comparisons that ignore nil-ness are flagged. G9 tabulates canEqual over go/types kinds. Not decided: extensional equality, reflexivity/symmetry/transitivity as semantic facts, NaN/cycles (excluded), shapes beyond the bounds. Since wave 6: library calls that are blind to nil-ness (bytes.Equal) are leaves only together with a nil-ness agreement test (R-leaf); canEqual refuses a type (or a component, also behind an alias) that has its own Equal method (G9).",
 		assumptions: commonAssumptions,
 		technique:   "abstract interpretation of the equal generator into residual programs + AST/guard-set (dominance) analyses of the residuals; predicate tabulation",
 	}
 	checks["C03"] = &checkDef{
 		run:         runR_C03,
-		explanation: "Engine R on the compare plugin: every residual is (R8) evaluated abstractly over the finite orderings of the operand pairs it mentions (pair ∈ {<,=,>}, nil test ∈ {nil,non-nil}, length pair ∈ {<,=,>}): results stay in {-1,0,+1}, 0 exactly when every examined component is equal, a single differing component decides in its natural direction, nil orders first, and swapping the values negates the result on every row; (R6) helper/method calls and comparisons pair mirror components in (this, that) order; (R19) every field takes part; (R7) guards; nil-ness of every nilable operand is examined (agreement with Equal); no numeric conversion of operands; (R16) maps are traversed through sort(keys(m)) only. Not decided: transitivity across helper boundaries, user Compare methods, stdlib Compare functions.",
+		explanation: "Engine R on the compare plugin: every residual is (R8) evaluated abstractly over the finite orderings of the operand pairs it mentions (pair ∈ {<,=,>}, nil test ∈ {nil,non-nil}, length pair ∈ {<,=,>}): results stay in {-1,0,+1}, 0 exactly when every examined component is equal, a single differing component decides in its natural direction, nil orders first, and swapping the values negates the result on every row; (R6) helper/method calls and comparisons pair mirror components in (this, that) order; (R19) every field takes part; (R7) guards; nil-ness of every nilable operand is examined (agreement with Equal); no numeric conversion of operands; (R16) maps are traversed through sort(keys(m)) only. Not decided: transitivity across helper boundaries, user Compare methods, stdlib Compare functions. Since wave 6: the nil-blind library-leaf rule (bytes.Compare) is part of this check.",
 		assumptions: append([]string{"a compare helper / Compare method / strings.Compare / bytes.Compare returns the sign of the ordering of its two operands"}, commonAssumptions...),
 		technique:   "abstract interpretation of the compare generator into residual programs + abstract evaluation of each residual over a finite ordering table; AST/guard-set lints",
 	}
 	checks["C04"] = &checkDef{
 		run:         runR_C04,
-		explanation: "Engine R on the hash plugin: every residual (R16) reaches map entries only through sort(keys(m)); (R-input) reads nothing but the value: no package-level state, no package other than math.Float32bits/Float64bits, no cap/uintptr/%p, no helper other than hash/sort/keys, a pointer operand is only nil-tested, dereferenced or handed to a hash helper; (R10) writes nothing through its argument; (R7) dereferences are nil-guarded; (R17) leaf-table contradiction: a bit-injective leaf function over a kind whose Equal leaf is the coarser `==`, and nil-vs-empty seeds against a nil-blind Equal leaf. Not decided: collision quality, user Hash methods, that Equal implies equal inputs to the fold beyond the listed mechanisms.",
+		explanation: "Engine R on the hash plugin: every residual (R16) reaches map entries only through sort(keys(m)); (R-input) reads nothing but the value: no package-level state, no package other than math.Float32bits/Float64bits, no cap/uintptr/%p, no helper other than hash/sort/keys, a pointer operand is only nil-tested, dereferenced or handed to a hash helper; (R10) writes nothing through its argument; (R7) dereferences are nil-guarded; (R17) leaf-table contradiction: a bit-injective leaf function over a kind whose Equal leaf is the coarser `==`, and nil-vs-empty seeds against a nil-blind Equal leaf. Not decided: collision quality, user Hash methods, that Equal implies equal inputs to the fold beyond the listed mechanisms. Since wave 6: float bits are hashed only after canonicalising the sign of zero (x+0 or a zero guard) (R17); nil and empty slices hash apart only where Equal tells them apart.",
 		assumptions: append([]string{"math.Float32bits/Float64bits are bit-injective and == on floats identifies +0 and -0 (Go specification facts frozen in the checker)"}, commonAssumptions...),
 		technique:   "abstract interpretation of the hash generator into residual programs + AST lints (input whitelist, ordered-map-traversal, leaf-table contradiction)",
 	}
@@ -69,13 +69,13 @@ func init() {
 	}
 	checks["C14"] = &checkDef{
 		run:         runR_C14,
-		explanation: "Engine R on contains/unique/set/union/intersect/filter/takewhile/all/any: guard→effect obligations on each residual, decided with the guard set (conditions with polarity that hold at a statement: enclosing ifs and negations of earlier leaving ifs). contains: `return true` only under an equality test (== licensed by canEqual, else the derived equal helper) of the current element and the item, `return false` only after the loop; union/intersect: the single append/insert is of the current element, into the right result, only under ¬contains(this, v) / contains(that, v) / a comma-ok lookup; filter: slot write list[j]=list[i] and j++ only under predicate(elem), result list[:j]; takewhile: break only under ¬predicate, append only under predicate; all/any: inner/outer constants and polarity; predicate called exactly once per iteration on the range element, forward range; set inserts every element; unique: membership only through derived Equal against an element drawn from the bucket of the element's own derived Hash, write cursor/slot/table updated only for first occurrences, the table records the write cursor. Inputs are not written except by the documented in-place helpers. G9 tabulates contains.canEqual and derive.IsComparable. Not decided: set semantics as such, order of keys(set(..)). Added: contains leaves an iteration only after comparing the element; Hash/Equal lookups tabulated.",
+		explanation: "Engine R on contains/unique/set/union/intersect/filter/takewhile/all/any: guard→effect obligations on each residual, decided with the guard set (conditions with polarity that hold at a statement: enclosing ifs and negations of earlier leaving ifs). contains: `return true` only under an equality test (== licensed by canEqual, else the derived equal helper) of the current element and the item, `return false` only after the loop; union/intersect: the single append/insert is of the current element, into the right result, only under ¬contains(this, v) / contains(that, v) / a comma-ok lookup; filter: slot write list[j]=list[i] and j++ only under predicate(elem), result list[:j]; takewhile: break only under ¬predicate, append only under predicate; all/any: inner/outer constants and polarity; predicate called exactly once per iteration on the range element, forward range; set inserts every element; unique: membership only through derived Equal against an element drawn from the bucket of the element's own derived Hash, write cursor/slot/table updated only for first occurrences, the table records the write cursor. Inputs are not written except by the documented in-place helpers. G9 tabulates contains.canEqual and derive.IsComparable. Not decided: set semantics as such, order of keys(set(..)). Added: contains leaves an iteration only after comparing the element; Hash/Equal lookups tabulated. Since wave 6: a nil map is never inserted into (union: the result map is made when the first argument is nil); contains.canEqual asks for Equal methods (G9).",
 		assumptions: commonAssumptions,
 		technique:   "abstract interpretation into residual programs + guard-set (polarity) effect rules on the residual ASTs; predicate tabulation",
 	}
 	checks["C15"] = &checkDef{
 		run:         runR_C15,
-		explanation: "Engine R on curry/uncurry/flip/apply/tuple for every naming of the parameters (named, blank, unnamed) and 0..2 results at arities up to the bound: (R14) the innermost closure references the original function exactly once, calls it with its own parameter names in order (and, for uncurry, the returned function with its parameters), returns the results unchanged; the closure binders are exactly the parameters, each once, in the transformed order (curry: first | rest; flip: first two swapped; apply: last pre-bound; uncurry: outer ++ inner); tuple returns its arguments in order; hygiene: a template-literal identifier referenced under user-named binders is a capture hazard; (R4) each residual is type-checked with pairwise distinct opaque parameter types — since the generators never inspect those types, this decides positional correctness for all types; (R1) blank/unnamed parameters must still give parsable output. Not decided: runtime behaviour of f, variadic signatures.",
+		explanation: "Engine R on curry/uncurry/flip/apply/tuple for every naming of the parameters (named, blank, unnamed) and 0..2 results at arities up to the bound: (R14) the innermost closure references the original function exactly once, calls it with its own parameter names in order (and, for uncurry, the returned function with its parameters), returns the results unchanged; the closure binders are exactly the parameters, each once, in the transformed order (curry: first | rest; flip: first two swapped; apply: last pre-bound; uncurry: outer ++ inner); tuple returns its arguments in order; hygiene: a template-literal identifier referenced under user-named binders is a capture hazard; (R4) each residual is type-checked with pairwise distinct opaque parameter types — since the generators never inspect those types, this decides positional correctness for all types; (R1) blank/unnamed parameters must still give parsable output. Not decided: runtime behaviour of f, variadic signatures. Since wave 6: named results may be blank in the abstract input space (a blank result must not be renamed into a clash).",
 		assumptions: commonAssumptions,
 		technique:   "abstract interpretation into residual programs + structural plumbing rules + go/types check of residuals under distinct opaque types (parametricity)",
 	}
@@ -93,7 +93,7 @@ func init() {
 	}
 	checks["C18"] = &checkDef{
 		run:         runR_C18,
-		explanation: "Engine R on mem for parameter arities 0..2 x result arities 0..2, comparable and not, every parameter naming: (R15) the returned closure contains exactly one call of f, with its own parameters in order, at the top level of its body (the miss path); the table is created once outside the closure; it is keyed by the argument (or an input struct of all arguments in order) only on paths where IsComparable was established, otherwise by the derived hash of that key, and then a hit requires derived Equal of a stored key with the arguments among the entries of that very bucket; every return before the call is under such a hit; after the call the results are stored under the key that was looked up — in the bucket form by appending to the current table entry, never to a snapshot taken before f ran — and returned in order; zero-argument form: a flag initially false guards the call and is set after it. G9 tabulates derive.IsComparable. Not decided: the hash/equal contract itself (C04), concurrency (not promised). Added: Hash/Equal lookups tabulated; hash float-leaf rule (known finding shared with C04).",
+		explanation: "Engine R on mem for parameter arities 0..2 x result arities 0..2, comparable and not, every parameter naming: (R15) the returned closure contains exactly one call of f, with its own parameters in order, at the top level of its body (the miss path); the table is created once outside the closure; it is keyed by the argument (or an input struct of all arguments in order) only on paths where IsComparable was established, otherwise by the derived hash of that key, and then a hit requires derived Equal of a stored key with the arguments among the entries of that very bucket; every return before the call is under such a hit; after the call the results are stored under the key that was looked up — in the bucket form by appending to the current table entry, never to a snapshot taken before f ran — and returned in order; zero-argument form: a flag initially false guards the call and is set after it. G9 tabulates derive.IsComparable. Not decided: the hash/equal contract itself (C04), concurrency (not promised). Added: Hash/Equal lookups tabulated; hash float-leaf rule (known finding shared with C04). Since wave 6: R17's zero canonicalisation (repaired: +0/-0 are memoised once).",
 		assumptions: commonAssumptions,
 		technique:   "abstract interpretation into residual programs + guard-set protocol rules on the residual ASTs; predicate tabulation",
 	}
@@ -108,7 +108,7 @@ func init() {
 			g30GeneratorStateless(c.Repo, c.Rep)
 			runR_C20(c)
 		},
-		explanation: "Engine R on do for n = 2, 3 (thorough: up to 4): every argument function is called exactly once and only inside its own goroutine (never on the caller's goroutine); all go statements dominate the first completion receive and none is reachable after it (start-all-before-wait); each goroutine stores its result before its single completion send, which is on every path and carries its own function's error; the caller receives exactly n completions, n = number of goroutines = number of functions; result slots are written by exactly one goroutine and read only after the receive loop; the returned error is assigned only from a received non-nil value and only while it is still nil; no variable written in a goroutine is used by another goroutine (T8). Not decided: scheduler fairness, panicking functions.",
+		explanation: "Engine R on do for n = 2, 3 (thorough: up to 4): every argument function is called exactly once and only inside its own goroutine (never on the caller's goroutine); all go statements dominate the first completion receive and none is reachable after it (start-all-before-wait); each goroutine stores its result before its single completion send, which is on every path and carries its own function's error; the caller receives exactly n completions, n = number of goroutines = number of functions; result slots are written by exactly one goroutine and read only after the receive loop; the returned error is assigned only from a received non-nil value and only while it is still nil; no variable written in a goroutine is used by another goroutine (T8). Not decided: scheduler fairness, panicking functions. Since wave 6: generator structs are written only by their constructor (G30: nothing carries over from one generated function to the next).",
 		assumptions: append([]string{"Go memory model: a send happens before the corresponding receive completes"}, commonAssumptions...),
 		technique:   "abstract interpretation into residual programs + goroutine typestate/pairing rules on go/cfg graphs of the residual closures",
 	}
@@ -117,7 +117,7 @@ func init() {
 			g28BypassQualifier(c.Repo, c.Rep)
 			runR_C06(c)
 		},
-		explanation: "Engine R on gostring — second-stage well-formedness: for every residual the fmt.Fprintf statements are walked along every structured path (each if both ways, each loop 0/1 times; thorough 0/1/2), their format strings concatenated with verbs replaced by placeholders (%#v a value, %d the iteration number, %s a nested derived GoString call); on every path the printed text must parse as an immediately invoked `func() T { … }()`, use only identifiers it declared before, and end in a return; type names in printed text come from the package-qualifying (bypass) printer while the function's own signature uses the ordinary one; a type printed under a pointer constructor (*T, new(T), &T{}) is the component's declared type, never its Underlying(); %s operands are nested gostring calls and values use %#v; a nil pointer/slice/map is printed as `return nil`; every field of an inlined struct is printed (R19). Not decided: %#v's escaping (stdlib), value round-trip, unexported fields. Added: %#v on a composite only when every component was established basic (also on duplicate-text runs).",
+		explanation: "Engine R on gostring — second-stage well-formedness: for every residual the fmt.Fprintf statements are walked along every structured path (each if both ways, each loop 0/1 times; thorough 0/1/2), their format strings concatenated with verbs replaced by placeholders (%#v a value, %d the iteration number, %s a nested derived GoString call); on every path the printed text must parse as an immediately invoked `func() T { … }()`, use only identifiers it declared before, and end in a return; type names in printed text come from the package-qualifying (bypass) printer while the function's own signature uses the ordinary one; a type printed under a pointer constructor (*T, new(T), &T{}) is the component's declared type, never its Underlying(); %s operands are nested gostring calls and values use %#v; a nil pointer/slice/map is printed as `return nil`; every field of an inlined struct is printed (R19). Not decided: %#v's escaping (stdlib), value round-trip, unexported fields. Added: %#v on a composite only when every component was established basic (also on duplicate-text runs). Since wave 6: every literal the emitted code returns for a typed value parses as an expression of that type's shape (a bare nil is not); the qualifier of an imported type is the package's name (G28); field rendering consults Embedded() or delegates to go/types (G25).",
 		assumptions: commonAssumptions,
 		technique:   "abstract interpretation into residual programs + path-wise assembly and go/parser analysis of the text the residual prints (two-stage well-formedness)",
 	}
@@ -141,7 +141,7 @@ func init() {
 			c.Rep.floor("G4", 10)
 			c.Rep.floor("G10", 9)
 		},
-		explanation: "Decides the mechanisms C07's anchors name, each a necessary condition: the derived file is written with a truncating os.Create on a path that comes only from (*pkg).Filename(), the same constant is what discovery excludes (G4); every successful return of generatePackage has passed through Print (HasContent) or Delete (otherwise) (G10 must-pass-through on the CFG); the loader tolerates type errors and an unparsable derived file; files named derivedFilename are excluded from call discovery, names resolved into it are re-queued and never reserved; no user file is skipped when listing package files (G10). (G22) the previous output is not an input of the first pass: every loader.Config installs a FindPackage hook that takes the package from (*build.Context).Import and, on every CFG path to a return on which the package is non-nil and marked stale, has replaced GoFiles by a filter of GoFiles by derivedFilename (the filter is evaluated abstractly on literal lists: exactly the other names, in order); (*plugins).Load marks every path it loads as stale; a load that marks nothing comes after this run's Print; the hook drops derivedFilename from InvalidGoFiles and clears go/build's error only under a condition on what remains of InvalidGoFiles. G17 (argument types cannot come from the previous derived.gen.go, nor from the callee's declaration) and G19 (a truncated remnant is never read, or the file is replaced atomically) are discharged through G22; on the tree before fix a84a5a8 both fail. G18: one call list in visit order. Not decided: byte identity across histories beyond these necessary conditions; derived files of imported (non-initial) packages. Added: reserved names never come from the whole type-checked package (G14); the finder continues into a call's arguments (G14); HasUndefined examines whole types (G12); loads include test files, tolerate errors, nobody reads a package's Errors list (G16).",
+		explanation: "Decides the mechanisms C07's anchors name, each a necessary condition: the derived file is written with a truncating os.Create on a path that comes only from (*pkg).Filename(), the same constant is what discovery excludes (G4); every successful return of generatePackage has passed through Print (HasContent) or Delete (otherwise) (G10 must-pass-through on the CFG); the loader tolerates type errors and an unparsable derived file; files named derivedFilename are excluded from call discovery, names resolved into it are re-queued and never reserved; no user file is skipped when listing package files (G10). (G22) the previous output is not an input of the first pass: every loader.Config installs a FindPackage hook that takes the package from (*build.Context).Import and, on every CFG path to a return on which the package is non-nil and marked stale, has replaced GoFiles by a filter of GoFiles by derivedFilename (the filter is evaluated abstractly on literal lists: exactly the other names, in order); (*plugins).Load marks every path it loads as stale; a load that marks nothing comes after this run's Print; the hook drops derivedFilename from InvalidGoFiles and clears go/build's error only under a condition on what remains of InvalidGoFiles. G17 (argument types cannot come from the previous derived.gen.go, nor from the callee's declaration) and G19 (a truncated remnant is never read, or the file is replaced atomically) are discharged through G22; on the tree before fix a84a5a8 both fail. G18: one call list in visit order. Not decided: byte identity across histories beyond these necessary conditions; derived files of imported (non-initial) packages. Added: reserved names never come from the whole type-checked package (G14); the finder continues into a call's arguments (G14); HasUndefined examines whole types (G12); loads include test files, tolerate errors, nobody reads a package's Errors list (G16). Since wave 6: the reload loop breaks exactly when a pass left the set of undefined calls of this package unchanged (G23); the initial packages are generated in load order (G31); the directory of the derived file is known before Print/Delete (G26).",
 		assumptions: commonAssumptions,
 		technique:   "custom static analysis: who-may-call table, path provenance, go/cfg must-pass-through and exclusion (reachability/dominance) rules",
 	}
@@ -157,7 +157,7 @@ func init() {
 			g14ReservedProvenance(c)
 			c.Rep.floor("G6", 8)
 		},
-		explanation: "G6: every range over a Go map in main/derive/plugin/* is classified (insert-only / constant reduction / append-then-sort are order-insensitive; first-match returns, emission or unsorted appends are violations); no package-level variable is written outside main/init and no package-level reference value escapes into per-package state; no clock/random/environment/goroutine input; printers, qualifiers, type tables and generators are constructed in newPackage only. Not decided: ordering inside go/loader and gotool (third-party), path-spelling independence, timing. Added: the callees of every order-insensitive map loop are effect-free (whole-repository may-have-effect analysis over static, interface and function-value calls; one exempted edge with its argument); nothing is ordered by token.Pos (expected count 0, with a built-in positive example); reserved names do not depend on the previous output. Added: G10 (every user file listed; print-or-delete on (*pkg).Filename()).",
+		explanation: "G6: every range over a Go map in main/derive/plugin/* is classified (insert-only / constant reduction / append-then-sort are order-insensitive; first-match returns, emission or unsorted appends are violations); no package-level variable is written outside main/init and no package-level reference value escapes into per-package state; no clock/random/environment/goroutine input; printers, qualifiers, type tables and generators are constructed in newPackage only. Not decided: ordering inside go/loader and gotool (third-party), path-spelling independence, timing. Added: the callees of every order-insensitive map loop are effect-free (whole-repository may-have-effect analysis over static, interface and function-value calls; one exempted edge with its argument); nothing is ordered by token.Pos (expected count 0, with a built-in positive example); reserved names do not depend on the previous output. Added: G10 (every user file listed; print-or-delete on (*pkg).Filename()). Since wave 6: Print skips the write only after bytes.Equal of the whole old and new content (G4); nameOf's candidates are sorted and vetted (G6/G11); the progress test of the pass loop depends on the current package only (G23); the directory is known before Print/Delete (G26).",
 		assumptions: commonAssumptions,
 		technique:   "custom static analysis: typed-AST classification of map iterations, global-state and nondeterministic-input lint, who-may-call for constructors",
 	}
@@ -176,7 +176,7 @@ func init() {
 			runG9(c, "equal.canEqual", "deepcopy.canCopy", "contains.canEqual", "derive.IsComparable")
 			runR_C09(c)
 		},
-		explanation: "G1: every error-returning call in main/derive/plugin/* (412 on the pinned tree) is returned, or tested with the non-nil branch ending in a non-nil error return / fatal exit; drops, blank assignments, swallows (`if err != nil { return nil }`) and error branches that stay inside a work loop are violations. G12: (*call).HasUndefined is tabulated over go/types kinds — on every path that answers `fully defined` it examined the whole type (String() rendering or every constituent), so unresolved argument types are always deferred. Engine R: no abstract run of any plugin (including runs Add rejects) hits a definite generator panic (index out of the established length, unchecked type assertion on an unrefined kind, Out underflow, explicit panic); no accepted run emits unparsable text; unsupported constituents (chan/func/interface) at every position of the structural plugins end in generator-error runs; operators are emitted only for kinds that support them. Not decided: termination of the reload loop, panics inside third-party code, broken user files. Added: (G15) constant offsets in the driver lie within an established length; (G14) Obj().Pkg() is nil-checked before use (IsExternal only on struct-kinded types, enforced by the interpreter); (G16) the finder records a call only after asserting call.Fun itself to be an identifier; recursion in a generator makes progress (re-entry with the same type arguments = definite non-termination); canEqual/canCopy/IsComparable tabulated incl. blank fields; (R4) every accepted run type-checks, as in C01. Fourth session: R4 alternatives as in C01; (G23) generatePackage returns nil only where no call is left undefined; (G24) nil first argument rejected in (*pkg).Add.",
+		explanation: "G1: every error-returning call in main/derive/plugin/* (412 on the pinned tree) is returned, or tested with the non-nil branch ending in a non-nil error return / fatal exit; drops, blank assignments, swallows (`if err != nil { return nil }`) and error branches that stay inside a work loop are violations. G12: (*call).HasUndefined is tabulated over go/types kinds — on every path that answers `fully defined` it examined the whole type (String() rendering or every constituent), so unresolved argument types are always deferred. Engine R: no abstract run of any plugin (including runs Add rejects) hits a definite generator panic (index out of the established length, unchecked type assertion on an unrefined kind, Out underflow, explicit panic); no accepted run emits unparsable text; unsupported constituents (chan/func/interface) at every position of the structural plugins end in generator-error runs; operators are emitted only for kinds that support them. Not decided: termination of the reload loop, panics inside third-party code, broken user files. Added: (G15) constant offsets in the driver lie within an established length; (G14) Obj().Pkg() is nil-checked before use (IsExternal only on struct-kinded types, enforced by the interpreter); (G16) the finder records a call only after asserting call.Fun itself to be an identifier; recursion in a generator makes progress (re-entry with the same type arguments = definite non-termination); canEqual/canCopy/IsComparable tabulated incl. blank fields; (R4) every accepted run type-checks, as in C01. Fourth session: R4 alternatives as in C01; (G23) generatePackage returns nil only where no call is left undefined; (G24) nil first argument rejected in (*pkg).Add. Since wave 6: the progress measure of the pass loop has one entry per undefined call (G27) and the loop's exits are decided (G23); a package without files is skipped before any position lookup (G26); R-generating and G15 as in C01; contains.canEqual asks for Equal methods.",
 		assumptions: commonAssumptions,
 		technique:   "custom static analysis: CFG-based error-flow lint + abstract interpretation of plugin Add/Generate with definite-panic detection",
 	}
@@ -191,7 +191,7 @@ func init() {
 			c.Rep.floor("G4", 10)
 			c.Rep.floor("G5", 6)
 		},
-		explanation: "G4: file-system effects are reachable only from (*pkg).Print (os.Create), (*pkg).Delete (os.Remove) and newPackage (os.OpenFile); no plugin and no other driver function references a mutating os/ioutil/exec/syscall member or handles an *os.File; paths come from Filename(); every open-for-write truncates; the source rewrite sits under a per-file guard that is reset for every file and can only be set inside `name != call.Name` after the no-flag panic. G5: the user's syntax tree is mutated at exactly one site (call.Expr.Fun = ast.NewIdent(name returned by Add)); comments are parsed; the file is re-printed whole from its own tree into its own path. G7: without flags SetFuncName can only return the requested name or fail. Not decided: byte-exactness of go/format, partial writes on I/O errors. Added: (G5) the replacement identifier carries the position of the identifier it replaces; (G16) a user file is opened for writing only after a complete parse of that very path.",
+		explanation: "G4: file-system effects are reachable only from (*pkg).Print (os.Create), (*pkg).Delete (os.Remove) and newPackage (os.OpenFile); no plugin and no other driver function references a mutating os/ioutil/exec/syscall member or handles an *os.File; paths come from Filename(); every open-for-write truncates; the source rewrite sits under a per-file guard that is reset for every file and can only be set inside `name != call.Name` after the no-flag panic. G5: the user's syntax tree is mutated at exactly one site (call.Expr.Fun = ast.NewIdent(name returned by Add)); comments are parsed; the file is re-printed whole from its own tree into its own path. G7: without flags SetFuncName can only return the requested name or fail. Not decided: byte-exactness of go/format, partial writes on I/O errors. Added: (G5) the replacement identifier carries the position of the identifier it replaces; (G16) a user file is opened for writing only after a complete parse of that very path. Since wave 6: the directory of the derived file is known before Print/Delete (G26).",
 		assumptions: commonAssumptions,
 		technique:   "custom static analysis: effect ownership (who-may-call), constant-flag evaluation, CFG guards, AST-store inventory",
 	}
@@ -217,7 +217,7 @@ func init() {
 			runG5(c.Repo, c.Rep)
 			c.Rep.floor("G7", 40)
 		},
-		explanation: "G7: SetFuncName's structured control flow is enumerated path by path over the atoms {name-of-types hit, hit==requested, requested bound, bound types eq, dedup, autoname}; each of the 36 consistent states must yield exactly the outcome the property prescribes (requested / existing only with -dedup / fresh only with -autoname / error / register in both tables). newName returns a candidate that was tested after its last update against both funcToTyps and reserved, built from the current prefix; GetFuncName registers exactly the name it returns; the reserved set is complete before any table uses it; nameOf answers only under eq (G11). Not decided: eq uses assignability rather than identity (outside the property's pairwise-non-assignable quantifier); type-correctness after renaming (C01). Added: (G16) eq evaluated abstractly on lists of lengths (1,2),(2,1),(0,1),(1,0),(2,3),(1,1),(2,2): false for different lengths, true when every pairwise test succeeds; (G14) the name returned by Add reaches the call identifier at every call site; (G4/G5) the rewrite truncates and prints the file's own tree; reserved names come from user files only. Added: every recorded call becomes its own record (G8), reserved set complete before naming (G14), argument types never from the callee's declaration (G17 clause 2).",
+		explanation: "G7: SetFuncName's structured control flow is enumerated path by path over the atoms {name-of-types hit, hit==requested, requested bound, bound types eq, dedup, autoname}; each of the 36 consistent states must yield exactly the outcome the property prescribes (requested / existing only with -dedup / fresh only with -autoname / error / register in both tables). newName returns a candidate that was tested after its last update against both funcToTyps and reserved, built from the current prefix; GetFuncName registers exactly the name it returns; the reserved set is complete before any table uses it; nameOf answers only under eq (G11). Not decided: eq uses assignability rather than identity (outside the property's pairwise-non-assignable quantifier); type-correctness after renaming (C01). Added: (G16) eq evaluated abstractly on lists of lengths (1,2),(2,1),(0,1),(1,0),(2,3),(1,1),(2,2): false for different lengths, true when every pairwise test succeeds; (G14) the name returned by Add reaches the call identifier at every call site; (G4/G5) the rewrite truncates and prints the file's own tree; reserved names come from user files only. Added: every recorded call becomes its own record (G8), reserved set complete before naming (G14), argument types never from the callee's declaration (G17 clause 2). Since wave 6: eq compares types.Default'ed types (G29); every name declared at package level outside the derived file is reserved, called or not (G32); newName returns the very name it tested and cuts type names between runes (G7/G15).",
 		assumptions: commonAssumptions,
 		technique:   "custom static analysis: decision-table extraction by path enumeration over the typed AST, loop-exit and dominance rules",
 	}
@@ -231,7 +231,7 @@ func init() {
 			c.Rep.floor("G8", 150)
 			runR_C12(c)
 		},
-		explanation: "G8: 33 NewPlugin registrations with unique names, unique default prefixes each starting with exactly one \"derive\" (so -prefix substitution is a pure renaming), all listed once in main, all deps keys bound; SetPrefix only from main before NewPlugins; the prefix is strings.Replace(default,\"derive\",*prefix,1) or the verbatim override; NewPlugins sorts before storing; the sort comparator is tabulated over the finite orderings of (length, string) and must be longest-first, irreflexive, asymmetric, total on equal lengths, and may index only the slice being sorted; both dispatch loops iterate the sorted slice and leave at the first match. Engine R: no residual contains a literal identifier starting with a registered default prefix; emitted function and helper names are NAME/FUNC holes (equivariance under the prefix map). Not decided: textual identity of two runs. Added: the -prefix substitution dominates SetPrefix.",
+		explanation: "G8: 33 NewPlugin registrations with unique names, unique default prefixes each starting with exactly one \"derive\" (so -prefix substitution is a pure renaming), all listed once in main, all deps keys bound; SetPrefix only from main before NewPlugins; the prefix is strings.Replace(default,\"derive\",*prefix,1) or the verbatim override; NewPlugins sorts before storing; the sort comparator is tabulated over the finite orderings of (length, string) and must be longest-first, irreflexive, asymmetric, total on equal lengths, and may index only the slice being sorted; both dispatch loops iterate the sorted slice and leave at the first match. Engine R: no residual contains a literal identifier starting with a registered default prefix; emitted function and helper names are NAME/FUNC holes (equivariance under the prefix map). Not decided: textual identity of two runs. Added: the -prefix substitution dominates SetPrefix. Since wave 6: the plugin list is never reordered after construction (G8); the name tested free is the name returned (G7); every declared name is reserved (G32).",
 		assumptions: commonAssumptions,
 		technique:   "custom static analysis: registry extraction, abstract evaluation of the comparator over a finite ordering table, CFG first-match rule, residual scope lint",
 	}
